@@ -167,6 +167,26 @@ def main():
         tie = prop.tie(ctx)
     except Exception:
         tie = {"ok": False, "crash": traceback.format_exc(), "violations": [], "divergences": []}
+    # 3b. stale regenerated model: a translator met source outside its fragment and kept the previous translation,
+    # so the registered theorems are, for that part, theorems about the code as it WAS.  That alone is no alarm (a
+    # harmless rewrite can leave the fragment), but the execution tie is then the only thing that speaks about the
+    # code as it is: search deeper - the same tie again at further seeds (quick tier; the thorough tier is already
+    # deep) - and say so in the evidence.  On the unchanged tree no translator is ever outside its fragment, so
+    # this costs nothing there.
+    stale = sorted(k for k, v in tr_status.items() if "unsupported" in json.dumps(v))
+    if stale:
+        ev_extra["stale_model"] = {"translators_outside_fragment": stale, "extra_tie_seeds": []}
+        if tier == "quick" and not tie.get("violations") and not tie.get("divergences") and tie.get("ok", False):
+            for extra_seed in (seed + 1000, seed + 2000, seed + 3000):
+                try:
+                    t2 = prop.tie(Ctx(pid, tier, extra_seed))
+                except Exception:
+                    t2 = {"ok": False, "crash": traceback.format_exc(), "violations": [], "divergences": []}
+                ev_extra["stale_model"]["extra_tie_seeds"].append(
+                    {"seed": extra_seed, "ok": bool(t2.get("ok")), "evaluations": t2.get("evaluations", 0)})
+                if t2.get("violations") or t2.get("divergences") or not t2.get("ok", False):
+                    tie = t2
+                    break
     # 4. classify
     known = load_known()
     for v in tie.get("violations", []):
